@@ -220,12 +220,17 @@ def consumer_attributes(ctx, shape, w, pre, post, r):
     want_u = shape.user if shape.user is not None else \
         conf.get('incomplete_consumer_user_id',
                  '00000000-0000-0000-0000-000000000000')
+    dflt_p, dflt_u = want_p, want_u
     for n in shape.consumers:
         rows = cons.get((CONS(n),), [])
         pres = _pres(rows)
         if pres is False:
             continue
         ev = symdb.Evaluator(None)
+        want_p, want_u = dflt_p, dflt_u
+        want_t = shape.ctype
+        if n in getattr(shape, 'attrs', {}):
+            want_p, want_u, want_t = shape.attrs[n]
         for col, want, pool in (('project_id', want_p, proj),
                                 ('user_id', want_u, users)):
             if want not in pool:
@@ -237,9 +242,9 @@ def consumer_attributes(ctx, shape, w, pre, post, r):
                        _z(And(pres, Not(same))),
                        'consumer %d does not carry the %s the accepted '
                        'request named' % (n, col))
-        if shape.ctype is not None:
+        if want_t is not None:
             same = ev._same(_merged(rows, 'consumer_type_id'),
-                            (False, ctypes.get(shape.ctype, -1)))
+                            (False, ctypes.get(want_t, -1)))
             obligation(ctx, 'consumer-attributes',
                        _z(And(pres, Not(same))),
                        'consumer %d does not carry the consumer type the '
